@@ -551,9 +551,12 @@ WriteArgsF(st) == {x \in WriteArgs(st) :
                      /\ x.fel = "other" => x.fn \in {"limit", "ldesc"}}
 
 \* announcements: per entity one option; items in the order 1, 1.1, 2 (partial notifications also reversed)
+\* ("nofs": the entity announced without any feature; a partial notification of such entities carries no feature
+\* information at all)
 AnnOpts(kd) == IF "ann" \in Tiny THEN (IF kd = "partial" THEN {"absent", "full1", "removed"} ELSE {"absent", "full1"})
-               ELSE IF kd = "partial" THEN {"absent", "full1", "sub2", "removed"} ELSE {"absent", "full1", "full2", "sub2"}
+               ELSE IF kd = "partial" THEN {"absent", "full1", "sub2", "nofs", "removed"} ELSE {"absent", "full1", "full2", "sub2", "nofs"}
 AnnItem(e, opt) == CASE opt = "full1"   -> [e |-> e, chg |-> "added", fs |-> CatFeats(e), v |-> 1]
+                     [] opt = "nofs"    -> [e |-> e, chg |-> "added", fs |-> {}, v |-> 1]
                      [] opt = "full2"   -> [e |-> e, chg |-> "added", fs |-> CatFeats(e), v |-> 2]
                      [] opt = "sub2"    -> [e |-> e, chg |-> "added", fs |-> {CHOOSE f \in CatFeats(e) : TRUE}, v |-> 2]
                      [] opt = "removed" -> [e |-> e, chg |-> "removed", fs |-> {}, v |-> 0]
